@@ -71,7 +71,9 @@ def parseCfg (s : String) : Config :=
         -- `WithAddressRewriteRules` drops repeated external literals (`sanitizeExternalIPs`)
         some { replace := m != "app", pin := Addr.ofTok? pin, iface := ifc.toNat?, exts := (parseAddrs exts).eraseDups }
       | _ => none
-    hold := g "hold" == "1" }
+    hold := g "hold" == "1"
+    continual := g "cg" == "1"
+    monIntervalMs := (g "mi").toNat?.getD 0 }
 
 def parseIfaces (s : String) : List Iface :=
   if s == "-" || s == "" then [] else
@@ -187,10 +189,16 @@ def stTok (st : Option Cycle.GS) : String :=
   | some .gathering => "gathering"
   | some .complete => "complete"
 
-def render (r : String) (o : Obs) : String :=
+/-- `lastKnownInterfaces`, printed by sessions with continual gathering only -/
+def lkTok (lk : List (Addr × Option Nat)) : String :=
+  if lk.isEmpty then "-" else
+  "+".intercalate (sortS (lk.map fun k => k.1.tok ++ (match k.2 with | some z => "%" ++ toString z | none => "")))
+
+def render (continual : Bool) (r : String) (o : Obs) : String :=
   s!"r={r} st={stTok o.st} g={o.gen} fl={o.failed} t={o.now} c={joinOr (sortS (o.cands.map candTok))} " ++
   s!"ev={joinOr (sortS (o.evs.map candTok))} nil={o.nilOp} nils={o.nils} late={o.late} led={ledTok o.led} " ++
-  s!"tot={o.opens}/{o.closes} mg={mgTok o.muxGets} held={o.held} hid={o.hidden} pend={joinOr (sortS (o.pend.map (·.2.2)))}"
+  s!"tot={o.opens}/{o.closes} mg={mgTok o.muxGets} held={o.held} hid={o.hidden} pend={joinOr (sortS (o.pend.map (·.2.2)))}" ++
+  (if continual then " lk=" ++ lkTok o.lk else "")
 
 def rtok : Rtok → String
   | .ok => "ok" | .multiple => "err:multiple" | .closed => "err:closed" | .skip => "skip"
@@ -200,6 +208,8 @@ def rtok : Rtok → String
 
 structure Session where
   ms : MState
+  /-- the interface table as the OPERATIONS set it (what the monitors judge against; not read from the model) -/
+  ifs : List Iface
   m18 : IceSpec.C18.MonSt
   m09 : IceSpec.C09.MonSt
 
@@ -216,6 +226,8 @@ def parseOp (toks : List String) (il : ImplLine) : Option Op :=
   | ["close"] => some .close
   | ["fail"] => some (.fail il.obs.now il.obs.failed)
   | ["release"] => some .release
+  | ["hold"] => some .hold
+  | ["ifaces", t] => some (.ifaces (parseIfaces t))
   | ["adv", ms] => ms.toNat?.map .adv
   | ["stunreply", k, m] => match k.toNat?, m.toNat? with
     | some k, some m => some (.stunreply k m)
@@ -231,9 +243,10 @@ def monitors (se : Session) (toks : List String) (il : ImplLine) : Session × Op
     (se, some ("unparsable implementation output"), [])
   else
     let opName := toks.head?.getD ""
-    let (v18, m18) := IceSpec.C18.check se.ms.cfg se.ms.ifs se.m18 opName il.r il.obs
+    let ifs := match toks with | ["ifaces", t] => parseIfaces t | _ => se.ifs
+    let (v18, m18) := IceSpec.C18.check se.ms.cfg ifs se.m18 opName il.r il.obs
     let (v09, m09) := IceSpec.C09.check se.m09 opName il.r il.obs
-    ({ se with m18 := m18, m09 := m09 }, v18, match v09 with | some w => [("C09", w)] | none => [])
+    ({ se with ifs := ifs, m18 := m18, m09 := m09 }, v18, match v09 with | some w => [("C09", w)] | none => [])
 
 def step (st : State) (toks : List String) (impl : String) : State × Res :=
   match toks with
@@ -250,10 +263,10 @@ def step (st : State) (toks : List String) (impl : String) : State × Res :=
     | .error .ineffectiveHost => (none, { model := "r=err:ineffective", prop := "C18" })
     | .ok ms =>
       let il := parseImpl impl
-      let se : Session := { ms := ms, m18 := IceSpec.C18.MonSt.init, m09 := IceSpec.C09.MonSt.init }
+      let se : Session := { ms := ms, ifs := ifs, m18 := IceSpec.C18.MonSt.init, m09 := IceSpec.C09.MonSt.init }
       let (se, v18, more) := monitors se ["new"] il
       let q := if cfg.quirks.isEmpty then "-" else "+".intercalate (cfg.quirks.map toString)
-      (some se, { model := (render "ok" (observe ms)).replace "r=ok st=" ("r=ok q=" ++ q ++ " st="), monitor := v18, prop := "C18", more := more })
+      (some se, { model := (render cfg.continual "ok" (observe ms)).replace "r=ok st=" ("r=ok q=" ++ q ++ " st="), monitor := v18, prop := "C18", more := more })
   | ["stress", _] =>
     -- S5 stress run outside the bubble: the model (with or without the re-check) never starts a stale
     -- candidate at a quiescent point; a positive count is the window of `C18_cycle_stale_witness`
@@ -272,14 +285,14 @@ def step (st : State) (toks : List String) (impl : String) : State × Res :=
         let ms := expire { ms with now := ms.now + turnTimeoutMs + stunTimeoutMs }
         let ms := applyFailed ms il.obs.failed
         let (_, v18, more) := monitors se toks il
-        (none, { model := render "ended" (observe ms), monitor := v18, prop := "C18", more := more })
+        (none, { model := render se.ms.cfg.continual "ended" (observe ms), monitor := v18, prop := "C18", more := more })
       | _ =>
         match parseOp toks il with
         | none => (st, bad "gather: unknown op")
         | some op =>
           let (ms, r) := IceModel.Gather.step se.ms op
           let ms := applyFailed ms il.obs.failed
-          let line := render (rtok r) (observe ms)
+          let line := render ms.cfg.continual (rtok r) (observe ms)
           let (se, v18, more) := monitors { se with ms := ms.flush } toks il
           (some se, { model := line, monitor := v18, prop := "C18", more := more })
 
